@@ -232,6 +232,8 @@ def gen_guard(tier, rng, out):
     for n in sizes:
         for i in range(G):
             vals = [0, (PAT[i] - 1) & 255, (PAT[i] + 1) & 255, 0xFF, PAT[(i + 1) % G], PAT[(i + 2) % G], PAT[i], rng.randrange(256), PAT[i] ^ 0x20, PAT[i] ^ 0x80]
+            if n > 1000:        # the model's byte memory is quadratic in the block size: a few cases only
+                vals = [(PAT[i] + 1) & 255] if tier == "quick" else vals[:4]
             for v in vals:
                 j += 1
                 e = j % 4
@@ -242,7 +244,7 @@ def gen_guard(tier, rng, out):
                     ops.append(F(e, al, a))
                 out.append(mk(j % 7 == 0, ops))
         # overruns starting inside the user bytes, the padding byte, change-and-restore
-        for k in range(1, 6):
+        for k in (range(1, 6) if n <= 1000 else (2,)):
             j += 1
             e = j % 4
             al = NATURAL[e][j % len(NATURAL[e])]
@@ -310,7 +312,7 @@ def gen_pairs(tier, rng, out):
 def gen_addresses(tier, rng, out):
     j = 0
     for n in [0, 1, 2, 8, 72, 73, 74, 100, 146, 147, 255, 4095]:
-        for e in range(4):
+        for e in (range(4) if n <= 1000 else (n % 4,)):
             al = NATURAL[e][0]
             base = slot((7 * n + e) % NSLOTS)
             cands = [None, base + 1, base + 73, base + n - 1, base + n, base + n + G, base + SLOT - 1, (base + SLOT) % (NSLOTS * SLOT), (base + 73 * SLOT) % (NSLOTS * SLOT)] + FOREIGN
